@@ -162,8 +162,16 @@ def rule_nobody_iterates_schema(ctx, rid="R10.3"):
     prog = ctx.prog
     calls = calls_of(prog)
     disp = dispatcher(prog)
-    reach = calls.reachable(calls.validation_roots())
-    r = ctx.rule(rid, "no validation-reachable function other than the dispatcher's table walk iterates a schema object", floor=40)
+    reach = set(calls.reachable(calls.validation_roots()))
+    # constructing a validator (and the resolver it builds for itself) is part of validating with it: a walk over the whole schema
+    # there -- to pre-register embedded ids, say -- sees annotations and unknown keywords just the same
+    V = calls.V
+    ctor_roots = [V.methods[m] for m in ("__init__",) if m in V.methods]
+    rc = prog.classes.get("validators.RefResolver")
+    if rc is not None:
+        ctor_roots += [rc.methods[m] for m in ("__init__", "from_schema") if m in rc.methods]
+    reach |= set(calls.reachable(ctor_roots))
+    r = ctx.rule(rid, "no function reachable from validation or from constructing a validator, other than the dispatcher's table walk, iterates a schema object", floor=40)
     # the table walk may live in a private helper of the dispatcher (called from nowhere else): then that helper's one
     # `.items()` is the table walk, and the dispatcher itself must not iterate
     disp_own = [x for x in reads_on_names(disp, {calls.param_with_role(disp, "schema")}, "schema", calls, depth=99) if x.kind in ITER_KINDS] \
@@ -252,3 +260,51 @@ def run(ctx):
     from .c16 import rule_create_copies
     rule_create_copies(ctx, "R10.6")
     tables.rule_meta_properties(ctx, "R10.7")
+    # R10.8: an empty schema object, one holding only annotations and `true` are the same schema: no keyword function tests a
+    # schema-valued keyword by truthiness (`additionalProperties: {}` is not `false`)
+    from .c01 import rule_schema_not_a_condition
+    rule_schema_not_a_condition(ctx, "R10.8")
+    rule_fragment_insensitive(ctx)
+
+
+def rule_fragment_insensitive(ctx, rid="R10.9"):
+    """Where a reference lands does not depend on members the draft does not define: resolve_fragment evaluated (sa/tokeval.py) on a
+    document and on the same document with annotation / unknown members added that *mention* ids and definitions of their own."""
+    from ..tokeval import Ev, Obj, Undecided, PyRaise
+    from ..common import find_method
+    prog = ctx.prog
+    f = find_method(prog, "validators.RefResolver", "resolve_fragment")
+    r = ctx.rule(rid, "following a fragment gives the same result whether or not the document has annotation / unknown members that carry ids of their own", floor=1)
+    base = {"definitions": {"x": {"type": "integer"}, "item": {"type": "null"}}, "a": {"b": 1}, "properties": {"p": {"$id": "#named", "type": "string"}}}
+    extras = {"x-unknown": {"$id": "#item", "id": "#item", "definitions": {"x": {"type": "string"}}, "a": {"b": 2}},
+              "examples": [{"$id": "#plain"}, {"id": "#plain"}, {"$id": "#/a/b"}], "default": {"$id": "#item", "id": "#named"}, "$comment": "#item",
+              "title": "item", "x-list": [[{"$id": "#deep", "id": "#deep"}]]}
+    frags = ["", "/a", "/a/b", "/definitions/x", "/definitions/item", "item", "plain", "named", "deep", "definitions", "a", "x", "/properties/p", "missing"]
+    try:
+        diffs = []
+        for frag in frags:
+            got = []
+            for doc in (base, dict(base, **extras), dict(extras, **base)):
+                ev = Ev(prog, fuel=20000, real_errors=True)
+                recv = Obj(f.cls, {})
+                recv.ev = ev
+                try:
+                    got.append(("value", ev.call_func(f, [recv, doc, frag], {})))
+                except PyRaise as pr:
+                    got.append(("raises", pr.name))
+            first = got[0]
+            for other in got[1:]:
+                same = first[0] == other[0] and (first[1] is other[1] or first[1] == other[1] or (frag == "" and other[0] == "value"))
+                if not same:
+                    diffs.append("fragment %r: %s without the extra members, %s with them" % (
+                        frag, first[1] if first[0] == "raises" else "resolves to %r" % (first[1],), other[1] if other[0] == "raises" else "resolves to %r" % (other[1],)))
+                    break
+    except Undecided as u:
+        r.ok(site(f), "NOT DECIDED: %s" % u)
+        r.note(site(f), "%s not decided" % rid)
+        return r
+    if diffs:
+        r.fail("%s|annotation-sensitive" % f.qual, site(f), diffs[0] + " (annotations, unknown keywords and their contents are not schemas: an id written there designates nothing)")
+    else:
+        r.ok(site(f), "%d fragments x 3 documents: identical outcomes" % len(frags))
+    return r
